@@ -176,3 +176,90 @@ Proof.
       intros sn Hin. apply Hothers. right. exact Hin. }
   rewrite Hr. eexists. reflexivity.
 Qed.
+
+(* ---- the announcement is repeated on the other adapters after it was recorded (node_iam_full) *)
+Lemma node_iam_full_spec : forall n sn a ds,
+  fst (node_iam_full n sn a ds) = fst (node_iam n sn a ds) /\
+  (forall n', fst (node_iam n sn a ds) = Ok n' ->
+     snd (node_iam_full n sn a ds) = iam_relay n sn ds ++ snd (node_iam n sn a ds)) /\
+  (forall x, (2 <= length (nadapters n))%nat -> In x (nadapters n) -> x <> sn -> In (IAmR x None ds) (iam_relay n sn ds)) /\
+  (forall e, In e (iam_relay n sn ds) -> exists x, e = IAmR x None ds /\ In x (nadapters n) /\ x <> sn).
+Proof.
+  intros n sn a ds. unfold node_iam_full. destruct (node_iam n sn a ds) as [[n1|e1] out] eqn:E; cbn [fst snd].
+  - split; [reflexivity|]. split; [intros n' _; reflexivity|]. split.
+    + intros x Hlen Hin Hne. unfold iam_relay.
+      destruct (length (nadapters n) <=? 1)%nat eqn:L; [apply Nat.leb_le in L; lia|].
+      apply in_map_iff. exists x. split; [reflexivity|]. apply filter_In. split; [exact Hin|].
+      destruct (x =? sn) eqn:Ex; [apply Z.eqb_eq in Ex; contradiction|reflexivity].
+    + intros e He. unfold iam_relay in He. destruct (length (nadapters n) <=? 1)%nat; [contradiction|].
+      apply in_map_iff in He. destruct He as [x [<- Hx]]. apply filter_In in Hx. destruct Hx as [Hin Hb].
+      exists x. split; [reflexivity|]. split; [exact Hin|]. intros ->. rewrite Z.eqb_refl in Hb. discriminate.
+  - split; [reflexivity|]. split; [intros n' H; discriminate|]. split.
+    + intros x Hlen Hin Hne. unfold iam_relay.
+      destruct (length (nadapters n) <=? 1)%nat eqn:L; [apply Nat.leb_le in L; lia|].
+      apply in_map_iff. exists x. split; [reflexivity|]. apply filter_In. split; [exact Hin|].
+      destruct (x =? sn) eqn:Ex; [apply Z.eqb_eq in Ex; contradiction|reflexivity].
+    + intros e He. unfold iam_relay in He. destruct (length (nadapters n) <=? 1)%nat; [contradiction|].
+      apply in_map_iff in He. destruct He as [x [<- Hx]]. apply filter_In in Hx. destruct Hx as [Hin Hb].
+      exists x. split; [reflexivity|]. split; [exact Hin|]. intros ->. rewrite Z.eqb_refl in Hb. discriminate.
+Qed.
+
+(* ---- Who-Is-Router-To-Network: the node claims a remote network exactly when its knowledge names a next
+   hop for it, found on an adapter other than the one the question arrived on *)
+Lemma node_whois_claim : forall n arr a d e, zmem d (nadapters n) = false -> In e (node_whois n arr a d) ->
+  (e = IAmR arr (Some a) [d] /\ node_whois n arr a d = [e] /\
+   exists sn x, route n d = Some (sn, x) /\ In sn (nadapters n) /\ sn <> arr /\ get_router_info (ncache n) sn d = Some x)
+  \/ (exists sn, e = WhoIsFwd sn d arr a /\ In sn (nadapters n) /\ sn <> arr /\
+      forall sn0, In sn0 (nadapters n) -> get_router_info (ncache n) sn0 d = None).
+Proof.
+  intros n arr a d e Hd He. unfold node_whois in *. destruct (length (nadapters n) <=? 1)%nat; [contradiction|].
+  rewrite Hd in *. destruct (route n d) as [[sn x]|] eqn:R.
+  - left. destruct (sn =? arr) eqn:Es; [contradiction|]. destruct He as [<-|[]].
+    split; [reflexivity|]. split; [reflexivity|]. exists sn, x. split; [reflexivity|].
+    apply route_in_sound in R. destruct R as [Hin Hp]. split; [exact Hin|]. split; [|exact Hp].
+    intros ->. rewrite Z.eqb_refl in Es. discriminate.
+  - right. destruct (arr =? -1); [contradiction|]. apply in_map_iff in He. destruct He as [sn [<- Hs]]. apply filter_In in Hs. destruct Hs as [Hin Hb].
+    exists sn. split; [reflexivity|]. split; [exact Hin|]. split; [intros ->; rewrite Z.eqb_refl in Hb; discriminate|].
+    intros sn0 Hin0. unfold get_router_info. destruct (pget (ncache n) sn0 d) as [x|] eqn:P; [|reflexivity].
+    destruct (route_in_complete (ncache n) (nadapters n) d sn0 x Hin0 P) as [hop Hh]. unfold route in R. congruence.
+Qed.
+
+(* known on another adapter and not on the arrival adapter: answered, to the asker, for exactly d *)
+Lemma node_whois_answered : forall n arr a d sn x, (2 <= length (nadapters n))%nat -> zmem d (nadapters n) = false ->
+  get_router_info (ncache n) arr d = None -> In sn (nadapters n) -> get_router_info (ncache n) sn d = Some x ->
+  node_whois n arr a d = [IAmR arr (Some a) [d]].
+Proof.
+  intros n arr a d sn x Hlen Hd Harr Hin Hk. unfold node_whois.
+  destruct (length (nadapters n) <=? 1)%nat eqn:L; [apply Nat.leb_le in L; lia|]. rewrite Hd.
+  destruct (route_in_complete (ncache n) (nadapters n) d sn x Hin Hk) as [[sn0 x0] Hh]. unfold route. rewrite Hh.
+  apply route_in_sound in Hh. destruct Hh as [_ Hp].
+  destruct (sn0 =? arr) eqn:E; [|reflexivity]. apply Z.eqb_eq in E. subst sn0.
+  unfold get_router_info in Harr. congruence.
+Qed.
+
+(* nothing known on any attached network: no claim; the question goes to every other adapter *)
+Lemma node_whois_unknown : forall n arr a d, (2 <= length (nadapters n))%nat -> zmem d (nadapters n) = false -> arr <> -1 ->
+  (forall sn, In sn (nadapters n) -> get_router_info (ncache n) sn d = None) ->
+  node_whois n arr a d = map (fun sn => WhoIsFwd sn d arr a) (filter (fun sn => negb (sn =? arr)) (nadapters n)).
+Proof.
+  intros n arr a d Hlen Hd Hnum Hk. unfold node_whois.
+  destruct (length (nadapters n) <=? 1)%nat eqn:L; [apply Nat.leb_le in L; lia|]. rewrite Hd.
+  unfold route. rewrite (route_in_none (ncache n) (nadapters n) d Hk).
+  destruct (arr =? -1) eqn:E; [apply Z.eqb_eq in E; contradiction|reflexivity].
+Qed.
+
+(* after an announcement heard on another attached network the node answers for every listed (remote)
+   destination it had no next hop for on the asking network: the claim follows the CURRENT knowledge *)
+Lemma node_whois_after_announcement : forall n sn a ds n' arr b d, Inv (ncache n) ->
+  (2 <= length (nadapters n))%nat -> In sn (nadapters n) -> sn <> arr -> zmem d (nadapters n) = false -> In d ds ->
+  get_router_info (ncache n) arr d = None ->
+  fst (node_iam n sn a ds) = Ok n' ->
+  node_whois n' arr b d = [IAmR arr (Some b) [d]].
+Proof.
+  intros n sn a ds n' arr b d Hinv Hlen Hsn Hne Hd Hin Harr Hok.
+  destruct (node_iam_ok n sn a ds Hinv) as [n1 [H1 [_ [Hads [Hp _]]]]].
+  assert (n1 = n') by congruence. subst n1.
+  apply (node_whois_answered n' arr b d sn a); rewrite ?Hads; try assumption.
+  - rewrite Hp. destruct (arr =? sn) eqn:E; [apply Z.eqb_eq in E; congruence|]. cbn [andb]. exact Harr.
+  - rewrite Hp, Z.eqb_refl. apply zmem_spec in Hin. rewrite Hin. reflexivity.
+Qed.
